@@ -126,3 +126,20 @@ Proof.
   { induction n as [|n IH]; intros s; [destruct s; reflexivity|]. cbn [repeat fold_left]. rewrite IH. destruct n, s; reflexivity. }
   rewrite (R c), (R b), (R a). destruct a, b, c; reflexivity.
 Qed.
+
+(* C12: the latched close callback of a Uni runs exactly once, at the end of the LAST of its M executors *)
+Lemma latch_run_quiet e : forall c, (e < c)%nat -> latch_run c e = repeat false e.
+Proof.
+  induction e as [|e IH]; intros c H; [reflexivity|]. cbn [latch_run repeat]. unfold latch_fires.
+  destruct (Nat.eqb_spec c 1); [lia|]. f_equal. apply IH. lia.
+Qed.
+Lemma latch_run_full c : (0 < c)%nat -> latch_run c c = repeat false (c - 1) ++ [true].
+Proof.
+  induction c as [|c IH]; intros H; [lia|]. cbn [latch_run]. unfold latch_fires.
+  destruct c as [|c'].
+  - reflexivity.
+  - replace (S (S c') - 1)%nat with (S c') by lia. cbn [Nat.eqb repeat app]. f_equal.
+    specialize (IH ltac:(lia)). replace (S c' - 1)%nat with c' in IH by lia. exact IH.
+Qed.
+Theorem latch_fires_exactly_once_at_the_last M : (0 < M)%nat -> latch_run M M = repeat false (M - 1) ++ [true].
+Proof. apply latch_run_full. Qed.
